@@ -5,7 +5,7 @@ import faultgen
 import syngen
 import xmltree
 
-THEOREMS = ["Syn.parse_print_ty", "Syn.parse_print_expr", "Syn.parse_print_args", "Syn.parse_print_elems", "Syn.parse_print_steps", "Syn.parse_print_fields", "Syn.print_norm", "Syn.second_rebuild_identical", "Syn.all_n"]
+THEOREMS = ["Syn.parse_print_module", "Syn.parse_print_stmt", "Syn.parse_print_expr", "Syn.parse_print_ty", "Syn.parse_print_args", "Syn.parse_print_elems", "Syn.parse_print_steps", "Syn.parse_print_fields", "Syn.print_norm", "Syn.print_norm_module", "Syn.second_rebuild_identical_module", "Syn.second_rebuild_identical", "Syn.decl_rt", "Syn.all_n"]
 
 # the rebuilder's extra-syntactical markers on structure types (known findings F27 / F28)
 DECL_MARKER = re.compile(r"\b(struct|word\d+)#[A-Za-z_][A-Za-z0-9_]*(?= )")
